@@ -121,6 +121,10 @@ def check(ctx):
     check_runners_up_as_requested(ctx)
     check_correlation_inheritance_order(ctx)
     check_candidates_forwarded_unchanged(ctx)
+    # the confidence fields reach the HDF5 output as computed: the writer
+    # stores each record key as it finds it (codec rule of C15)
+    from .C15 import check_record_keys, check_hdf5_codec
+    check_hdf5_codec(ctx, check_record_keys(ctx))
     from ..rules.idioms import check_falsy_numeric_default
     for fi_ in ctx.db.iter_functions():
         if fi_.module.short in ('cli.from_specified_markers',
@@ -727,6 +731,62 @@ def check_correlation_inheritance_order(
            'the parent -> child pass: a single-child level below a level '
            'that was voted on reports the correlation of the level below '
            'it, not of the level where its assignment was decided')
+
+
+def check_settings_forwarded_unchanged(
+        ctx, names, rule='R-FWD/handed-on-unchanged',
+        modules=('type_assignment.election',
+                 'type_assignment.election_runner'),
+        consequence='the election runs with another setting than was '
+                    'asked for'):
+    """along the election call chain (election_runner, election) a
+    setting that a function receives under a name and hands on under the
+    same name is handed on *as received*: the argument's symbolic value is
+    the parameter itself.  Normalising a setting in one frame of the chain
+    (a default for single-iteration runs, a clamp from the tree) changes
+    what every later frame -- and the reader of the output -- takes it to
+    be."""
+    from ..core.resolve import resolve_callee, bind_args
+    from ..core.loader import FunctionInfo
+    db = ctx.db
+    n = 0
+    for fi in db.iter_functions():
+        if fi.module.short not in modules:
+            continue
+        mine = [x for x in names if x in fi.params]
+        if not mine:
+            continue
+        cfg = cfg_of(fi)
+        rd = rd_of(fi)
+        ex = Expander(fi)
+        for node in cfg.nodes:
+            if node.id not in rd.live:
+                continue
+            for c in cfg.calls_in(node):
+                t = resolve_callee(db, fi, c)
+                args = dict()
+                if isinstance(t, FunctionInfo):
+                    m, _ = bind_args(t, c)
+                    for x in mine:
+                        if x in t.params and m.get(x) is not None:
+                            args[x] = m[x]
+                for d in ast.walk(c):
+                    if isinstance(d, ast.Dict):
+                        for k_, v_ in zip(d.keys, d.values):
+                            if isinstance(k_, ast.Constant) \
+                                    and k_.value in mine:
+                                args[k_.value] = v_
+                for x, a in args.items():
+                    n += 1
+                    term = ex.expand(a, node.id)
+                    ok = term == ('param', x)
+                    ctx.touch(fi)
+                    ctx.ob(rule, f'{fi.qual}:{x}#{n - 1}', fi.loc(c), ok,
+                           f'`{x}` is handed on as received' if ok else
+                           f'{fi.name} hands on {x} = '
+                           f'{fmt_term(term)[:70]}, not the value it '
+                           f'received: {consequence}')
+    return n
 
 
 def check_candidates_forwarded_unchanged(
